@@ -8,7 +8,7 @@ from typing import Dict, List, Optional, Tuple
 from sa.index import AnalysisError, ClassInfo, dotted_name
 from sa.models import shape_str, strip_opt
 from sa.report import Ctx
-from sa.sym import expand_pure_calls, fold_sub, FALSE, NONE, NOT, TRUE, Summary, show, subst, walk
+from sa.sym import callkw, expand_pure_calls, fold_sub, FALSE, NONE, NOT, TRUE, Summary, show, subst, walk
 
 from .aoef import AOEF_PKG, Aoef, Collection, Leaf, attr_reads, relfile
 
@@ -1006,7 +1006,7 @@ class C01:
         k2 = ctx.summ.of_func(cm, "term_from_key")
         kk = ("param", k2.params[0])
         r = k2.returns[0].term if len(k2.returns) == 1 else None
-        if r is not None and r[0] == "call" and dict(r[3]).get("label") == kk:
+        if r is not None and r[0] == "call" and callkw(r).get("label") == kk:
             ctx.ok("R01.7", f"{cfile}:{k2.node.lineno} term_from_key", "the stored key becomes the label of the rebuilt term")
         else:
             ctx.bad("R01.7", cfile, "term_from_key", f"return {show(r)[:60] if r else '-'}",
@@ -1034,7 +1034,7 @@ class C01:
                 for r_ in rs.returns:
                     for x in walk(fold_sub(expand_pure_calls(r_.term, self.ctx.summ, ci, ci.module))):
                         if x[0] == "call" and x[1][0] == "global" and x[1][2] == "class":
-                            tv = dict(x[3]).get("term")
+                            tv = callkw(x).get("term")
                             if tv is None:
                                 continue
                             if tv[0] == "call" and tv[1] == tfk and len(tv[2]) == 1:
@@ -1047,7 +1047,7 @@ class C01:
         dumps = [e for e in sv.calls if e.term[1][0] == "attr" and e.term[1][2] == "model_dump_json"]
         afile = sv.module.relpath
         if len(dumps) == 1:
-            kw = dict(dumps[0].term[3])
+            kw = callkw(dumps[0].term)
             bad_opts = [k_ for k_ in ("exclude_defaults", "exclude_unset", "include", "by_alias", "round_trip") if k_ in kw and kw[k_] != ("const", False)]
             if kw.get("exclude_none") in (("const", True), None) and not bad_opts and kw.get("exclude", ("param", "exclude")) == ("param", "exclude"):
                 ctx.ok("R01.7", f"{afile}:{dumps[0].lineno} save", "document dumped with exclude_none only (defaults such as collection_type are kept)")
